@@ -4,6 +4,7 @@ import SccacheModel.Props.C02
 import SccacheModel.Model.ServerL1
 import SccacheModel.Model.Spec
 import SccacheModel.Proofs.AtFile
+import SccacheModel.Proofs.MakeQuote
 
 /-! # C01 — wrapped C/C++ compiles are observably identical to direct compiles
 
@@ -188,5 +189,11 @@ theorem makeQuote_plain (t : ArgsM.Bytes) (bs : Nat) (h : ∀ c ∈ t, c ≠ 32 
 theorem makeQuote_specials :
     makeQuoteGo 0 [97, 32, 98, 36, 99, 35, 100, 46, 111] = [97, 92, 32, 98, 36, 36, 99, 92, 35, 100, 46, 111] ∧
     makeQuoteGo 0 [101, 92, 32, 102, 46, 111] = [101, 92, 92, 92, 32, 102, 46, 111] := by decide
+
+/-- `dependency_target_reads_back`: for **every** object path (valid UTF-8 — the ones that get quoted), what Make reads back from the
+    dependency target sccache synthesizes for `-MD` / `-MMD` (its `$$` → `$`, backslash-`#` → `#`, 2n+1 backslashes before white space → n)
+    is the object path itself -/
+theorem dependency_target_reads_back (t : ArgsM.Bytes) (h : RArgsM.validUtf8 t = true) : makeUnquote (makeQuote t) = t :=
+  ArgsM.makeUnquote_makeQuote t h
 
 end C01
